@@ -9,7 +9,8 @@
    second write of a record larger than the buffer, a record cut inside) — and every such image
    recovers all earlier operations and the failed one entirely or not at all (C03). *)
 From BC Require Import Store.Engine Store.Log Store.Cons Store.Inv Store.Refine Store.Merge Store.Theorems
-  Store.Crash Store.CrashScript Store.CrashMerge.
+  Store.Codec Store.CodecProofs Store.Crash Store.CrashScript Store.CrashMerge.
+From Coq Require Import Lia.
 Open Scope N_scope.
 
 (* 1. An id is consumed before its file is created: new_active_datafile always uses an id above the
@@ -70,3 +71,23 @@ Theorem C20_fault_at_call_boundary : forall c ops1 o s0 n,
     (img_ok fn (abs s1) \/ img_ok fn (abs (fst (fst (step c s1 o))))).
 Proof. exact fault_then_restart. Qed.
 Print Assumptions C20_fault_at_call_boundary.
+
+(* Non-vacuity of 4: the hypotheses hold for a concrete script, and a failing second SET (cut after 9
+   bytes of its record) leaves such an image. *)
+Example C20_example :
+  let c := mkCfg 60 false 0 1 0 1000000000 in
+  let ops1 := [OSet [107] [1; 2]] in let o := OSet [107] [3] in
+  let s0 : fs := fun f => match f with FData 0 => Some [] | _ => None end in
+  run_ready c init (ops1 ++ [o]) /\ rep s0 (s_dir init) /\ trace_wf (snd (run c init (ops1 ++ [o]))) /\
+  exists f1 img, fs_run s0 (snd (run c init ops1)) = Some f1 /\ image_of f1 (snd (step c (fst (fst (run c init ops1))) o)) img /\
+    img (FData 0) = Some (enc_entry (mkEntry 1 [107] (Some [1; 2])) ++ firstn 9 (enc_entry (mkEntry 2 [107] (Some [3])))).
+Proof.
+  cbv zeta. split; [cbn; auto|]. split; [intros id; destruct id as [|p]; vm_compute; auto|]. split.
+  { repeat constructor; cbn [call_wf]; eexists; (split; [|reflexivity]); unfold Store.CodecProofs.wf_entry, Store.CodecProofs.i64_ok; cbn; repeat split; lia. }
+  eexists. eexists. split; [vm_compute; reflexivity|]. split.
+  - eapply (img_torn _ _ _ [] (FData 0) (firstn 9 (enc_entry (mkEntry 2 [107] (Some [3])))) (skipn 9 (enc_entry (mkEntry 2 [107] (Some [3]))))).
+    + vm_compute. reflexivity.
+    + vm_compute. discriminate.
+    + cbn [app fs_run fs_step]. reflexivity.
+  - vm_compute. reflexivity.
+Qed.
